@@ -235,8 +235,8 @@ prop("C11",
      level_note=ORACLE_NOTE,
      rule=("cases = (ADF, call sequence); non-trivial = node table at least doubled and >=3 different semantics were "
            "interleaved; distinct by hash of ADF structure and call sequence"),
-     quick=dict(cases=600, args={}),
-     thorough=dict(cases=5000, args={}),
+     quick=dict(cases=6000, args={}),
+     thorough=dict(cases=30000, args={}),
      )
 
 prop("C14",
@@ -248,8 +248,8 @@ prop("C14",
                  "copies pass the audit, and the copies must answer every later call like the original and the oracle."),
      level_note=ORACLE_NOTE + " CLI export/import legs are part of the CLI checks.",
      rule=("cases = (ADF, call sequence, export point); non-trivial as in C11; distinct by hash of structure and sequence"),
-     quick=dict(cases=600, args={}),
-     thorough=dict(cases=5000, args={}),
+     quick=dict(cases=3000, args={}),
+     thorough=dict(cases=15000, args={}),
      )
 
 prop("C12",
